@@ -208,10 +208,13 @@ func sliceElemTarget(tgt ssa.Value) (bool, ssa.Value) {
 // array into h.Data or clears (typedmemclr on an h.Data-derived pointer); or
 // the element codec is one whose Read unconditionally overwrites (scalars).
 func sliceElemCleared(f *ssa.Function, rb *ssa.BasicBlock, ri int, tgt, hdr ssa.Value) (bool, string) {
-	// scalar wrappers: element Read stores unconditionally on success (checked by rule X.scalarstore)
+	// the packed fixed-width wrapper is only built for element codecs without explicit presence
+	// (T.fixedwrap): its elements are fixed-width scalars, whose Read stores unconditionally on
+	// success (X.scalarstore). The varint wrapper is NOT exempt: []*int is accepted, and a pointer
+	// element is decoded into, not replaced.
 	switch recvTypeName(f) {
-	case "WTFixedSliceWrapper", "WTVarIntSliceWrapper":
-		return true, "scalar element codecs store their result unconditionally on success (X.scalarstore)"
+	case "WTFixedSliceWrapper":
+		return true, "fixed-width scalar element codecs store their result unconditionally on success (X.scalarstore, T.fixedwrap)"
 	}
 	// direct clear of the same pointer dominating the read
 	for _, d := range f.Blocks {
